@@ -30,6 +30,15 @@ func alignValueToPageSize(value int) int {
 
 func New(r io.ReadCloser) (*CarReader, error) {
 	br := bufio.NewReaderSize(r, alignValueToPageSize(readahead.DefaultChunkSize))
+	// The size of the header is what it occupies in the file (length prefix + payload); re-encoding the decoded
+	// header gives another size when the file's encoding is valid but not the one go-car writes.
+	var headerSize *uint64
+	if prefix, _ := br.Peek(binary.MaxVarintLen64); len(prefix) > 0 {
+		if payloadLen, n := binary.Uvarint(prefix); n > 0 {
+			size := uint64(n) + payloadLen
+			headerSize = &size
+		}
+	}
 	ch, err := ReadHeader(br)
 	if err != nil {
 		return nil, err
@@ -44,8 +53,9 @@ func New(r io.ReadCloser) (*CarReader, error) {
 	}
 
 	return &CarReader{
-		br:     br,
-		Header: ch,
+		headerSize: headerSize,
+		br:         br,
+		Header:     ch,
 	}, nil
 }
 
